@@ -94,6 +94,58 @@ fn one(o: &mut Out, rng: &mut Rng, cfg: &WCfg, stream: Option<usize>, parts: Vec
     }
 }
 
+/// Encoder::with_info: an `Info` built by hand or taken from a decoder (interlaced flag, frame control of a later frame) must still give a stream
+/// that decodes to the bytes given (and that the strict validator accepts)
+fn with_info_cases(o: &mut Out, rng: &mut Rng, thorough: bool) {
+    for k in 0..(if thorough { 400 } else { 40 }) {
+        let (color, depth) = COLOR_DEPTHS[(k % 15) as usize];
+        if color == 3 { continue; }
+        let (w, h) = (rng.range(1, 12) as u32, rng.range(1, 9) as u32);
+        let interlaced = k % 2 == 0;
+        let animated = k % 3 == 0;
+        let seq0 = if animated { *rng.pick(&[0u32, 1, 5, 1000]) } else { 0 };
+        let rb = row_bytes(color, depth, w as u64) as usize;
+        let nimg = if animated { 2 } else { 1 };
+        let images: Vec<Vec<u8>> = (0..nimg).map(|_| rng.bytes(rb * h as usize)).collect();
+        o.mark(&format!("with_info c{}d{} {}x{} interlaced={} animated={} seq0={}", color, depth, w, h, interlaced, animated, seq0));
+        let sink = Sink::new(0, None, false);
+        let r = guarded(|| -> Result<(), String> {
+            let mut info = png::Info::with_size(w, h);
+            info.color_type = color_of(color);
+            info.bit_depth = depth_of(depth);
+            info.interlaced = interlaced;
+            if animated {
+                info.animation_control = Some(png::AnimationControl { num_frames: 2, num_plays: 0 });
+                let mut fc = png::FrameControl::default();
+                fc.width = w; fc.height = h; fc.sequence_number = seq0;
+                info.frame_control = Some(fc);
+            }
+            let e = png::Encoder::with_info(sink.clone(), info).map_err(|er| format!("with_info: {:?}", er))?;
+            let mut wr = e.write_header().map_err(|er| format!("header: {:?}", er))?;
+            for im in &images { wr.write_image_data(im).map_err(|er| format!("image: {:?}", er))?; }
+            wr.finish().map_err(|er| format!("finish: {:?}", er))
+        });
+        o.direct_checks += 1;
+        o.count("with-info");
+        match r {
+            Ok(Ok(())) => {}
+            Ok(Err(e)) => { o.violation(viol("encoder-refused-a-legal-image", vec![("why", jstr(&e))])); continue; }
+            Err(m) => { o.violation(viol("encoder-panicked", vec![("why", jstr(&m))])); continue; }
+        }
+        let bytes = sink.0.borrow().accepted.clone();
+        if let Err(why) = crate::validator::validate(&bytes) {
+            o.violation(viol("encoder-output-not-conformant", vec![("why", jstr(&why)), ("interlaced", interlaced.to_string()), ("first_sequence_number_given", seq0.to_string()), ("emitted", jstr(&hex(&bytes)))]));
+            continue;
+        }
+        let (end, frames) = decode_frames(&bytes, Opts::default(), 0, 0);
+        let got: Vec<&Vec<u8>> = frames.iter().map(|f| &f.1).collect();
+        if got.len() != images.len() || got.iter().zip(images.iter()).any(|(a, b)| *a != b) {
+            o.violation(viol("roundtrip-through-own-decoder-differs", vec![("why", jstr(&format!("{} of {} frames decoded, end {}", got.len(), images.len(), end))), ("interlaced", interlaced.to_string()),
+                ("first_sequence_number_given", seq0.to_string()), ("emitted", jstr(&hex(&bytes)))]));
+        }
+    }
+}
+
 /// StreamWriter::write call by call (still images): the number of bytes every call accepts and the bytes handed to the compressor
 /// (= the inflated IDAT stream) vs Model/StreamWriterBuf.v sw_trace
 fn stream_trace_cases(o: &mut Out, rng: &mut Rng, thorough: bool) {
@@ -287,6 +339,7 @@ pub fn run(a: &Args) {
         crate::util::NOISE_ONLY.with(|c| c.set(false));
         o.count("large-chunk-buffers");
     }
+    with_info_cases(&mut o, &mut rng, thorough);
     stream_trace_cases(&mut o, &mut rng, thorough);
     chunk_writer_cases(&mut o, &mut rng, thorough);
     o.mark("done");
